@@ -64,16 +64,16 @@ var (
 	Local = time.Local
 )
 
-func Unix(sec, nsec int64) Time                       { return time.Unix(sec, nsec) }
-func UnixMilli(ms int64) Time                         { return time.UnixMilli(ms) }
-func UnixMicro(us int64) Time                         { return time.UnixMicro(us) }
+func Unix(sec, nsec int64) Time { return time.Unix(sec, nsec) }
+func UnixMilli(ms int64) Time   { return time.UnixMilli(ms) }
+func UnixMicro(us int64) Time   { return time.UnixMicro(us) }
 func Date(y int, m Month, d, h, mi, s, ns int, l *Location) Time {
 	return time.Date(y, m, d, h, mi, s, ns, l)
 }
-func ParseDuration(s string) (Duration, error)        { return time.ParseDuration(s) }
-func Parse(layout, value string) (Time, error)        { return time.Parse(layout, value) }
-func FixedZone(name string, off int) *Location        { return time.FixedZone(name, off) }
-func LoadLocation(name string) (*Location, error)     { return time.LoadLocation(name) }
+func ParseDuration(s string) (Duration, error)    { return time.ParseDuration(s) }
+func Parse(layout, value string) (Time, error)    { return time.Parse(layout, value) }
+func FixedZone(name string, off int) *Location    { return time.FixedZone(name, off) }
+func LoadLocation(name string) (*Location, error) { return time.LoadLocation(name) }
 
 // ---- the virtual clock ----
 
@@ -171,6 +171,19 @@ func ActiveTickers() int {
 	for _, t := range tickers {
 		if !t.stopped {
 			n++
+		}
+	}
+	return n
+}
+
+// PendingTicks reports how many fired ticks have not been received yet.
+func PendingTicks() int {
+	mu.Lock()
+	defer mu.Unlock()
+	n := 0
+	for _, t := range tickers {
+		if !t.stopped {
+			n += len(t.c)
 		}
 	}
 	return n
